@@ -2,6 +2,11 @@
 from cachelib import *
 import props_store
 
+
+def switch_discr_place(body, bi):
+    import props_values
+    return props_values.switch_discr_place(body, bi)
+
 MET = "metrics::Metrics"
 SLFU = "policy::SampledLFU"
 
@@ -11,7 +16,9 @@ def metric_tick(body, t):
     if not callee_matches(body.callee_of(t), MET + "::add"):
         return None
     a = [norm(x) for x in body.call_args(t)]
-    typ = a[1][2].split("::")[-1] if a[1][0] == "agg" else show(a[1])
+    # a metric kind held in a variable (`let outcome = if hit { Hit } else { Miss }`) is resolved per
+    # path by count_paths, which substitutes `$name`
+    typ = a[1][2].split("::")[-1] if a[1][0] == "agg" else ("$" + a[1][1] if a[1][0] == "var" else show(a[1]))
     return typ, a[2], a[3]
 
 
@@ -19,10 +26,20 @@ def count_paths(body, label_fn, max_states=4096):
     """Path-sensitive effect counting.  label_fn(bi, term) -> label or None for call terminators.
     Returns [(PathState at return, {label: count (saturating at 2)})]."""
     def node_fn(s, bi, si, node):
+        if node["k"] == "assign" and node["rv"]["k"] == "agg" and node["rv"].get("ak") == "adt" and node["rv"].get("adt", "").endswith("MetricType"):
+            tg = place_target(body, node["pl"])
+            if tg is not None and tg[0] == "var":
+                d = dict(s.user or ())
+                d["$" + tg[1]] = node["rv"]["variant"]
+                return s.with_user(tuple(sorted(d.items())))
         if node["k"] == "call":
             lab = label_fn(bi, node)
             if lab is not None:
                 d = dict(s.user or ())
+                if "$" in lab:
+                    for k_, v_ in d.items():
+                        if k_.startswith("$") and k_ in lab:
+                            lab = lab.replace(k_, v_)
                 if lab.startswith("call* "):
                     # re-polling an awaited crate future: the callee body runs once
                     lab = "call " + lab[6:]
@@ -35,7 +52,7 @@ def count_paths(body, label_fn, max_states=4096):
     out = []
     for rb in body.return_blocks():
         for s in at.get((rb, term_idx(body, rb)), set()):
-            out.append((s, dict(s.user or ())))
+            out.append((s, {k_: v_ for k_, v_ in (s.user or ()) if not k_.startswith("$")}))
     return out, at
 
 
@@ -179,6 +196,9 @@ def check_C16(rep, fl):
         vexp = norm(hi.expand(vic))
         ok = f.get("cost") == ("field", vexp, "cost") and f.get("index") == ("field", vexp, "key")
     rep.check(ok, "R16.5", fl, hi, "victim cost", "an evicted victim is reported with the cost the policy charged for it (PolicyPair.cost)", "the evicted item's cost/index are not taken from the victim pair")
+    import props_policy
+    props_policy.check_victim_pair(rep, fl)
+    props_policy.check_policy_forwarding(rep, fl)
     props_store.check_sweeper(rep, fl)
 
 
@@ -198,7 +218,7 @@ def check_hit_miss(rep, fl, rule="R17.1"):
 
         def lab(bi, t):
             mt = metric_tick(b, t)
-            if mt and mt[0] in ("Hit", "Miss"):
+            if mt and (mt[0] in ("Hit", "Miss") or mt[0].startswith("$")):
                 okargs = mt[1] == index and mt[2] == ("const", 1, "u64")
                 return mt[0] if okargs else mt[0] + "!badargs"
             return None
@@ -210,6 +230,11 @@ def check_hit_miss(rep, fl, rule="R17.1"):
             es = expand_state(b, s, hist=True)
             is_closed = any(is_call(a, "load") and mentions(a, norm(F(V("self"), "is_closed"))) and v for a, v in es.lits)
             found = feval(A(("variant", se, "Some")), es)
+            if found is None:
+                # the test may be spelled is_some() / is_none()
+                for a, v in es.lits:
+                    if (is_call(a, "Option::is_some") or is_call(a, "Option::is_none")) and norm(a[2][0]) == se:
+                        found = v if is_call(a, "Option::is_some") else (not v)
             if is_closed:
                 good = not cnt
             elif found is True:
@@ -244,30 +269,52 @@ def check_policy_metrics(rep, fl):
         if mt and mt[0] == "CostAdd":
             ok = dominates_all_paths(add, [x for x, _ in incs], b2)
             rep.check(ok, "R17.2", fl, add, "CostAdd => increment", "CostAdd is ticked only for an admission", "CostAdd ticked without an admission", loc=t2["sp"])
-    # removal closures (add and remove)
+    # released charges (add and remove), on the flattened bodies: `.map(|cost| ..)` and `if let Some(cost)` alike
     for fn in ("add", "remove"):
-        b = fl.policy_fn(fn)
+        b = facts.flat(fl.policy_fn(fn))
         rms = calls_to(b, SLFU + "::remove")
         for bi, t in rms:
             rk = norm(b.call_args(t)[1])
-            # result flows into Option::map(closure) with CostEvict(param) + KeyEvict(1)
             res = norm(b.call_expr(t, True))
-            maps = [(b2, t2) for b2, t2 in calls_to(b, "Option::map") if norm(b.call_args(t2)[0]) == res]
-            ok = len(maps) == 1
+            res_pl = t["dest"]
+            # the switch on the result
+            sw = None
+            for x in b.live_blocks():
+                pl = switch_discr_place(b, x)
+                if pl is not None and pl["l"] == res_pl["l"] and not pl["p"] and x in b.reachable(bi):
+                    sw = x
+            ok = sw is not None
             if ok:
-                ce = closure_of_call(b, maps[0][1])
-                cb = facts.closure_body(ce[0][1])
-                p = V(cb.local_name.get(2, "arg2"))
+                some = none = None
+                for tgt, atom, pol in edge_literals(b, sw):
+                    if atom is not None and atom[0] == "variant" and pol:
+                        if atom[2] == "Some":
+                            some = tgt
+                        elif atom[2] == "None":
+                            none = tgt
+                ok = some is not None and none is not None
+            if ok:
+                dom = {x for x in b.live_blocks() if block_dominates(b, some, x)}
+                exits = {x for x in b.reachable(none)} - dom
                 ticks = {}
-                for b3, t3 in cb.calls():
-                    mt = metric_tick(cb, t3)
-                    if mt:
-                        k3 = in_parent_terms(facts, cb, mt[1], stop_at=b)
-                        ticks[mt[0]] = (k3, mt[2], b3)
-                ok = set(ticks) == {"CostEvict", "KeyEvict"} and strip_casts(ticks["CostEvict"][1]) == p and ticks["KeyEvict"][1] == ("const", 1, "u64") \
-                    and all(must_pass_through(cb, [v[2]]) for v in ticks.values()) and all(norm(b.expand(v[0])) == norm(b.expand(rk)) for v in ticks.values())
+                for b3, t3 in b.calls():
+                    mt = metric_tick(b, t3)
+                    if mt and mt[0] in ("CostEvict", "KeyEvict") and b3 in dom:
+                        ticks.setdefault(mt[0], []).append((norm(b.expand(mt[1])), mt[2], b3))
+                payload = ("field", ("downcast", res, "Some"), "0")
+                ok = set(ticks) == {"CostEvict", "KeyEvict"} and all(len(v) == 1 for v in ticks.values())
+                if ok:
+                    ce_, ke_ = ticks["CostEvict"][0], ticks["KeyEvict"][0]
+                    delta = strip_casts(norm(b.expand(strip_casts(ce_[1]))))
+                    ok = (delta == payload or strip_casts(ce_[1]) == payload) and ke_[1] == ("const", 1, "u64") \
+                        and all(v[0] == norm(b.expand(rk)) for v in (ce_, ke_)) \
+                        and all(must_pass_through(b, [v[2]], from_bi=some, exits=exits) for v in (ce_, ke_)) \
+                        and not any(v[2] in b.reachable(v[2], removed_edges=[(p_, v[2]) for p_ in b.preds(v[2]) if p_ not in dom]) and False for v in (ce_, ke_))
+                # no eviction tick for this removal outside the Some arm
+                outside = [b3 for b3, t3 in b.calls() if (metric_tick(b, t3) or ("",))[0] in ("CostEvict", "KeyEvict") and b3 not in dom]
+                ok = ok and not outside
             rep.check(ok, "R17.2", fl, b, "remove => CostEvict+KeyEvict", "every released charge ticks CostEvict(removed cost) and KeyEvict(1), exactly when a charge was released",
-                      "costs.remove is not followed by `.map(|cost| { CostEvict(cost); KeyEvict(1) })` on its own result", loc=t["sp"])
+                      "costs.remove is not followed by CostEvict(removed cost) and KeyEvict(1) on exactly the path where a charge was released", loc=t["sp"])
     # RejectSets <-> rejection return
     rs = [(b2, t2) for b2, t2 in add.calls() if (metric_tick(add, t2) or ("",))[0] == "RejectSets"]
     ok = len(rs) == 1 and metric_tick(add, rs[0][1])[1] == key and metric_tick(add, rs[0][1])[2] == ("const", 1, "u64")
@@ -463,19 +510,28 @@ def check_metrics_core(rep, fl):
         ok = is_call(e, "MetricsInner::get") and e[2][1][0] == "agg" and e[2][1][2].endswith("MetricType::" + typ)
         rep.check(ok, "R17.6", fl, b, g, "%s() reads MetricType::%s" % (g, typ), "%s() reads %s" % (g, show(e)))
     b = facts.body("metrics::MetricsInner::get")
-    r = None
-    for bi, t in calls_to(b, "Iterator::for_each"):
-        cl = closure_of_call(b, t)
-        if cl:
-            r = (bi, t, facts.closure_body(cl[0][1]))
-    ok = r is not None
+    it = single_iteration(facts, b)
+    ok = it is not None
     if ok:
-        bi, t, cb = r
-        recv = norm(b.call_args(t)[0])
-        p = V(cb.local_name.get(2, "arg2"))
-        ws = stmt_nodes(cb, lambda s: True)
-        tot = [w for w in ws if place_target(cb, w[2]["pl"]) is not None]
-        ok = is_call(recv, "iter") and len(tot) == 1 and norm(cb.rvalue_expr(tot[0][2]["rv"], True)) == norm(("bin", "Add", place_target(cb, tot[0][2]["pl"]), call("std::sync::atomic::Atomic::load", p, ("agg", "adt", "atomic::Ordering::SeqCst", (), ()))))
+        fb = it.body
+        recv = it.source
+        # one accumulation per stripe: acc = acc + load(elem), acc declared outside the loop
+        tot = []
+        for x in sorted(it.region):
+            for y, st2 in enumerate(fb.blocks[x]["stmts"]):
+                if st2["k"] != "assign":
+                    continue
+                tg = place_target(fb, st2["pl"])
+                if tg is None or tg[0] != "var" or tg in it.elem_vars:
+                    continue
+                l = fb.name_local.get(tg[1])
+                if l is not None and any(d[0] not in it.region for d in fb.defs.get(l, [])):
+                    tot.append((x, y, st2, tg))
+        ok = is_call(recv, "iter") and len(tot) == 1
+        if ok:
+            x, y, st2, tg = tot[0]
+            val = it.canon(fb.rvalue_expr(st2["rv"], True))
+            ok = val == norm(("bin", "Add", tg, call("std::sync::atomic::Atomic::load", ("elem",), ("agg", "adt", "atomic::Ordering::SeqCst", (), ())))) and it.every_round([x])
     rep.check(ok, "R17.6", fl, b, "get sums stripes", "get(typ) sums every stripe of the metric", "MetricsInner::get does not sum all stripes")
     b = facts.body("metrics::MetricsInner::add")
     fa = calls_to(b, "fetch_add")
@@ -631,6 +687,9 @@ def check_C17(rep, fl):
 
 def check_C15(rep, fl):
     facts = fl.facts
+    # "in batches of buffer_items": the value given to the builder is the ring's capacity
+    import props_panic
+    props_panic.check_builder_plumbing(rep, fl)
     # R15.1 get / get_mut push the index before the store lookup, hit or miss
     for m in ("get", "get_mut"):
         b = fl.cache_fn(m)
